@@ -346,4 +346,39 @@ theorem fxAppendColumn_eq (s : SFrame) (col : List Val) (name : String) (dt : Op
       | nil => simp
       | cons v vs => exact tail (typeOfVal v)
 
+-- ---------------------------------------------------------------------------------------
+-- write_rows
+
+theorem fxWriteRows_eq (s : SFrame) (rows : List (List Val)) (idx : List Int) :
+    (fxWriteRows s rows idx).1 = (sWriteRows s rows idx).1 ∧
+    ((fxWriteRows s rows idx).2 = none ↔ (sWriteRows s rows idx).2 = none) := by
+  unfold fxWriteRows sWriteRows
+  cases rows with
+  | nil => simp
+  | cons r0 rest =>
+    simp only []
+    split
+    · simp
+    · split
+      · simp
+      · cases hnp : npRows s.types (r0 :: rest) with
+        | error e =>
+          cases hc : convRows s.types (r0 :: rest) with
+          | error e' => simp
+          | ok rs =>
+            have := (convRows_two_stage.1 hc).1
+            rw [hnp] at this; cases this
+        | ok rs =>
+          simp only []
+          by_cases hok : h5RowsOk s.types rs = true
+          · have hc := convRows_two_stage.2 ⟨hnp, hok⟩
+            simp only [hok, if_true, hc]
+            cases selectList s.rows.length idx .typeError <;> simp
+          · cases hc : convRows s.types (r0 :: rest) with
+            | error e' => simp [hok]
+            | ok rs' =>
+              obtain ⟨h1, h2⟩ := convRows_two_stage.1 hc
+              rw [hnp] at h1; injection h1 with h1; subst h1
+              exact absurd h2 hok
+
 end Nix.Frame
